@@ -513,20 +513,25 @@ fn rule_push_value_to_csr_memory(
     memory_out: &mut AvailableValueMap<MemoryLocation>,
     available_in: &AvailableValueMap<Register>,
 ) {
-    // Only a word store leaves the whole register value in memory
-    if !matches!(node, ParserNode::Store(store) if store.inst == StoreType::Sw) {
+    // If the node writes to memory through a register that contains a csr value
+    let ParserNode::Store(store) = node else {
         return;
-    }
-    // If the node writes to memory
-    if let Some((source, (reg, off))) = node.stores_to_memory() {
-        // If the register contains a csr value
-        if let Some(AvailableValue::ValueInCsr(csr)) = available_in.get(&reg) {
-            // Push the value to the memory
-            memory_out.insert(
-                MemoryLocation::CsrRegisterValueOffset(*csr, off.value()),
-                AvailableValue::RegisterWithScalar(source, 0),
-            );
-        }
+    };
+    let Some(AvailableValue::ValueInCsr(csr)) = available_in.get(store.rs1.get()) else {
+        return;
+    };
+    let location = MemoryLocation::CsrRegisterValueOffset(*csr, store.imm.get().value());
+    if store.inst == StoreType::Sw {
+        // A word store leaves the whole register value in memory (zero for x0)
+        let value = if store.rs2 == Register::X0 {
+            AvailableValue::Constant(0)
+        } else {
+            AvailableValue::RegisterWithScalar(store.rs2.get_cloned(), 0)
+        };
+        memory_out.insert(location, value);
+    } else {
+        // A byte or half-word store replaces part of the word: nothing is known
+        memory_out.retain(|known, _| *known != location);
     }
 }
 
